@@ -145,7 +145,7 @@ CLAIMED["C24"] = dict(
 
 CLAIMED["C05"] = dict(
     level="translation_validation", design="§4 C05",
-    text="RISC-V (rv32im, with and without rvc) and ARM A32. Per program of a stated family (C corpus, ABI/frame shapes, x op K with boundary constants around the immediate formats of both targets, every narrow IR operator and cast on i8..u32, frame sizes around 1/2/4 KiB) and optimisation level (quick: two levels for riscv, one for arm; thorough: 0/1/2/s, riscv also with rvc) the real front end, optimizer, code generator and linker run concretely; the LINKED BYTES are executed symbolically on manual-derived ISA models (ref/rv32.py; ref/arm32.py with flags, literal pools and ppci's runtime helper) from the function entry with symbolic registers, flags and memory, next to the reference semantics of the IR that was compiled. The solver proves, per path and for all inputs: equal return value, final globals and buffers, external call trace, restored sp/fp/callee-saved registers and an untouched caller stack; back-end exceptions count as 'no code produced'.",
+    text="RISC-V (rv32im, with and without rvc) and ARM A32. Per program of a stated family (C corpus, ABI/frame shapes, x op K with boundary constants around the immediate formats of both targets, every narrow IR operator and cast on i8..u32, frame sizes around 1/2/4 KiB) and optimisation level (quick: two levels for riscv, one for arm; thorough: 0, 2 and one of 1/s, riscv also with rvc) the real front end, optimizer, code generator and linker run concretely; the LINKED BYTES are executed symbolically on manual-derived ISA models (ref/rv32.py; ref/arm32.py with flags, literal pools and ppci's runtime helper) from the function entry with symbolic registers, flags and memory, next to the reference semantics of the IR that was compiled. The solver proves, per path and for all inputs: equal return value, final globals and buffers, external call trace, restored sp/fp/callee-saved registers and an untouched caller stack; back-end exceptions count as 'no code produced'.",
     note="RISC-V and ARM A32 only: Thumb, m68k, mips, x86_64 are unclaimed (no ISA model). Trusted: z3, ref/rv32.py and ref/arm32.py (validated under C08), ref/irsem.py + ref/irsem_u.py, the engine; every path cross-checks the z3 machine semantics against an integer implementation. Calling conventions are taken from ppci's own arch objects. Unwinding: 400 instructions (ARM: 40 inside the __sdiv loop); cut paths counted, not claimed. Known findings (region True per harness family): riscv locals beyond ~2 KiB not covered; ARM __udiv missing, REMU32 and narrow DIV/REM patterns missing, frame sizes that are not modified immediates, register allocator give-up, __sdiv helper unsigned, stack arguments never loaded. Outside: floats, 64-bit integers, struct-by-value arguments.",
     technique=TECH_TV)
 CLAIMED["C22"] = dict(
